@@ -20,7 +20,7 @@ ALIASES = ('A', 'B', 'C', 'M', 'Msg', 'prev', 'm1', 'BA', 'aM')  # 'BA'/'A' and 
 KW_PREFIX_ALIASES = ('Estimate', 'orderly', 'assets', 'inside', 'notably', 'Total')
 BOUND_VARS = ('i', 'j', 'k', 'n', 'e1', 'elem')
 NUM_TEXTS = ('0', '1', '2', '3', '10', '0.5', '0.25', '1.5', '100', '7', '1e3', '2.5E-2', '.5', '1.',
-             '1234567890123456789', '1e308', '1e-320', '0.0', '42')
+             '1234567890123456789', '1e308', '1e-320', '0.0', '42', '1e+16', '2.5E+3')
 SMALL_NUM_TEXTS = ('0', '1', '2', '3', '0.5', '10', '1.5')
 STR_TEXTS = ('"a"', '"b"', '""', '"hello world"', '"1"', '"x y"', '"not"', '"\\"q\\""', '"p\tq"', '"5\xa0km"')
 FUN1_NUM = ('abs', 'sqrt', 'ceil', 'floor', 'sin', 'cos', 'tan', 'asin', 'acos', 'atan', 'deg', 'rad')
@@ -662,7 +662,7 @@ class PropGen:
                 out.append((k, pick(r, ('p1', 'prop_%d' % n, 'id', 'title', 'no', 'safety', 'Estimate'))))
             else:
                 out.append((k, pick(r, ('"t"', '"a title"', '"globally: no a"', '"# id: x"', '"é世"', '""', '"a\tb"',
-                                            '"x\xa0y  z"'))))
+                                            '"x\xa0y  z"', '"say \\"hi\\""', '"C:\\\\logs\\\\"', '"a\\\\"'))))
         return tuple(out)
 
     def make(self, scope_kind=None, pat_kind=None, widths=None, n=0, with_meta=True):
